@@ -76,7 +76,7 @@ def stage_a(ctx, procs):
 
 
 def stage_b(ctx, procs):
-    names, items = c11.enum_run(ctx, 'checks', ctx.pick(23, 2), procs, tag='b')
+    names, items = c11.enum_run(ctx, 'checks', ctx.pick(37, 2), procs, tag='b')
     idx = [i for i, n in enumerate(names) if n]           # the empty name: see stage C
     bad, nrej, nyes = [], 0, 0
     for it in items:
